@@ -70,9 +70,10 @@ def model_check(name, tier):
         stats["counterexample"] = out[out.find("Error:"):][:6000]
     scripts = []
     for ln in out.splitlines():
-        if ln.startswith('<<"TR", "'):
-            js = ln[len('<<"TR", "'):-3]
-            scripts.append(json.loads(js.encode().decode("unicode_escape")))
+        if ln.startswith('"TR|'):
+            scripts.append(json.loads(json.loads(ln)[3:]))
+    if sum(1 for ln in out.splitlines() if "TR|" in ln) != len(scripts):
+        raise A.Infra("some printed transitions of %s could not be parsed" % name)
     return stats, scripts, c, violated
 
 
